@@ -340,4 +340,100 @@ theorem lowerElementwise_generic {f : String} {ins ins' : List (List G)} {go go'
   · rw [hsh3, hsh3']; exact compose_test ho
   · simp only [gShape, List.length_map]; exact gsimL_length _ _ ho
 
+/-! ### reductions -/
+
+/-- The pieces of a successful `lowerReduce`. -/
+theorem lowerReduce_parts {f : String} {m : List String} {ein eout : List G} {l : LX}
+    (hd : redDomain m ein eout = true) (h : lowerReduce f m ein eout = .ok l) :
+    ∃ sq s1 s3, prepInput m { reg := 0, shape := gShape ein, prog := [], next := 1 } 0 ein = .ok (sq, s1) ∧
+      stb { reg := s1.next, shape := lens (sq.filter (fun a => !m.contains a.name)), prog := [], next := s1.next + 1 }
+        (sq.filter (fun a => !m.contains a.name)) (G.leavesL eout) = .ok s3 ∧
+      s3.shape = lens (G.leavesL eout) ∧
+      l = ⟨s1.prog.map .base ++ [.reduce f s1.reg (exprToAxis m sq) false] ++ (reshapeW s3 (gShape eout)).prog.map .base,
+        (reshapeW s3 (gShape eout)).reg⟩ := by
+  simp only [redDomain, Bool.and_eq_true] at hd
+  have hout := (noDup_iff _).mp hd.1.1
+  have hcons := consistentLens_spec hd.1.2
+  unfold lowerReduce at h
+  by_cases hop : redOps.contains f = true
+  · simp only [hop, Bool.not_true, Bool.false_eq_true, if_false, pure_bind] at h
+    cases hp : prepInput m { reg := 0, shape := gShape ein, prog := [], next := 1 } 0 ein with
+    | error er => simp [hp, bind, Except.bind] at h
+    | ok x0 =>
+      obtain ⟨sq, s1⟩ := x0
+      simp only [hp, bind, Except.bind] at h
+      have htr0 : Tr [symInput 0 (gShape ein)] { reg := 0, shape := gShape ein, prog := [], next := 1 }
+          [symInput 0 (gShape ein)] := ⟨rfl, rfl⟩
+      obtain ⟨hnd, hsq, _⟩ := prep_run htr0 rfl hp
+      have hsqnd : (names sq).Nodup := by rw [hsq]; exact names_nodup_filter hnd _
+      have hexmem : ∀ a ∈ sq.filter (fun a => !m.contains a.name), a ∈ G.leavesL ein ∧ a.len ≠ 1 := by
+        intro a ha
+        have h1 := List.mem_filter.mp ha
+        have h3 : m.contains a.name = false := by simpa using h1.2
+        have h2 := h1.1
+        rw [hsq] at h2
+        have h4 := List.mem_filter.mp h2
+        refine ⟨h4.1, ?_⟩
+        intro e1
+        have h5 := h4.2
+        rw [e1, h3] at h5
+        simp at h5
+      by_cases hcheck : reducedShape s1.shape (exprToAxis m sq) = lens (sq.filter (fun a => !m.contains a.name))
+      · simp only [hcheck, bne_self_eq_false, Bool.false_eq_true, if_false, pure, Except.pure] at h
+        cases hstb : stb { reg := s1.next, shape := lens (sq.filter (fun a => !m.contains a.name)), prog := [], next := s1.next + 1 }
+            (sq.filter (fun a => !m.contains a.name)) (G.leavesL eout) with
+        | error er => rw [hstb] at h; cases h
+        | ok s3 =>
+          simp only [hstb, Except.ok.injEq] at h
+          obtain ⟨inps, T, hrun⟩ := fab_run s1.next (lens (sq.filter (fun a => !m.contains a.name)))
+          have hsh3 := stb_shape_of_run hrun (names_nodup_filter hsqnd _) hout (fun a ha => (hexmem a ha).2)
+            (fun a ha b hb hn => hcons a (hexmem a ha).1 b hb hn) rfl hstb
+          exact ⟨sq, s1, s3, rfl, hstb, hsh3, h.symm⟩
+      · have : (reducedShape s1.shape (exprToAxis m sq) != lens (sq.filter (fun a => !m.contains a.name))) = true := by
+          simpa using hcheck
+        simp only [this, if_true, throw, throwThe, MonadExceptOf.throw] at h
+        cases h
+  · have hop' : redOps.contains f = false := by
+      cases hc : redOps.contains f with
+      | true => exact absurd hc hop
+      | false => rfl
+    simp only [hop', Bool.not_false, if_true, throw, throwThe, MonadExceptOf.throw, bind, Except.bind] at h
+    cases h
+
+theorem progSkeletonX_base (p : List Instr) : progSkeletonX (p.map .base) = (progSkeleton p).map .base := by
+  simp [progSkeletonX, progSkeleton, List.map_map, Function.comp_def, instrSkeletonX]
+
+/-- **Size-genericity of the lowering of reductions** (both lowerings succeed). -/
+theorem lowerReduce_generic {f : String} {m : List String} {gi gi' go go' : List G} {l l' : LX}
+    (hd : redDomain m gi go = true) (hd' : redDomain m gi' go' = true)
+    (hi : gsimL gi gi' = true) (ho : gsimL go go' = true)
+    (h : lowerReduce f m gi go = .ok l) (h' : lowerReduce f m gi' go' = .ok l') :
+    progSkeletonX l.prog = progSkeletonX l'.prog ∧ l.reg = l'.reg := by
+  obtain ⟨sq, s1, s3, hp, hstb, hsh3, hl⟩ := lowerReduce_parts hd h
+  obtain ⟨sq', s1', s3', hp', hstb', hsh3', hl'⟩ := lowerReduce_parts hd' h'
+  have hr0 : Rel { reg := 0, shape := gShape gi, prog := [], next := 1 } { reg := 0, shape := gShape gi', prog := [], next := 1 } :=
+    ⟨rfl, rfl, rfl⟩
+  obtain ⟨hsim, hr1, _, _⟩ := prepInput_rel hr0 hi hp hp'
+  have hsimE : Sim (sq.filter (fun a => !m.contains a.name)) (sq'.filter (fun a => !m.contains a.name)) :=
+    hsim.filter _ _ (fun a b hn _ => by rw [hn])
+  have hLo := gsimL_leaves go go' ho
+  have hr2 : Rel { reg := s1.next, shape := lens (sq.filter (fun a => !m.contains a.name)), prog := [], next := s1.next + 1 }
+      { reg := s1'.next, shape := lens (sq'.filter (fun a => !m.contains a.name)), prog := [], next := s1'.next + 1 } :=
+    ⟨hr1.next, by simp [hr1.next], rfl⟩
+  have hr3 := stb_generic hr2 rfl rfl hsimE hLo
+  rw [hstb, hstb'] at hr3
+  have hr4 : Rel (reshapeW s3 (gShape go)) (reshapeW s3' (gShape go')) := by
+    apply reshapeW_rel hr3
+    · rw [hsh3, hsh3']; exact compose_test ho
+    · simp only [gShape, List.length_map]; exact gsimL_length _ _ ho
+  rw [hl, hl']
+  refine ⟨?_, hr4.reg⟩
+  simp only [progSkeletonX, List.map_append, List.map_cons, List.map_nil]
+  have e1 := progSkeletonX_base s1.prog
+  have e2 := progSkeletonX_base s1'.prog
+  have e3 := progSkeletonX_base (reshapeW s3 (gShape go)).prog
+  have e4 := progSkeletonX_base (reshapeW s3' (gShape go')).prog
+  simp only [progSkeletonX] at e1 e2 e3 e4
+  rw [e1, e2, e3, e4, hr1.prog, hr4.prog, hr1.reg, exprToAxis_sim m hsim]
+
 end Einx.Lower
